@@ -51,6 +51,13 @@ MODELLED_NOT_VERIFIED = ['numpy linear algebra (cross, dot, argsort, unique, rou
 
 # ---------------------------------------------------------------------------------------------- numbers
 SPACINGS = [F(1, 4), F(1, 2), F(3, 4), F(1), F(5, 4), F(3, 2), F(2), F(5, 2), F(3)]
+THIN = [F(1, 16), F(1, 64), F(1, 1024)]          # thin slices (micro-CT, high-resolution MR): unusual but legal
+
+
+def slice_spacing(r):
+    """Spacing between planes: mostly everyday values, sometimes thin slices (dyadic, so that positions stay exact decimals
+    of at most 16 characters for |coordinates| <= 100)."""
+    return r.choice(THIN) if r.random() < 0.12 else r.choice(SPACINGS)
 
 
 def _signed_perms():
@@ -99,7 +106,7 @@ def rand_direction(r, oblique_p=0.15):
 
 def rand_geom(r, oblique_p=0.15):
     d, exact, label = rand_direction(r, oblique_p)
-    s = [r.choice(SPACINGS) for _ in range(3)]
+    s = [slice_spacing(r), r.choice(SPACINGS), r.choice(SPACINGS)]
     p = [F(r.randint(-800, 800), 8) for _ in range(3)]
     return {'d': d, 's': s, 'p': p, 'exact': exact, 'label': label, 'h': int(_det(d))}
 
@@ -767,6 +774,84 @@ def frames_l1(ctx, descr, seg, all_pos, iop, lab, cha, arr, nseg, seg_type, exac
     return full
 
 
+def stored_tile_frames(seg):
+    """L1 view of every stored tile of a TILED_SPARSE segmentation, in stored order."""
+    out = []
+    for f in seg.PerFrameFunctionalGroupsSequence:
+        pp = f.PlanePositionSlideSequence[0]
+        sn = None
+        if 'SegmentIdentificationSequence' in f:
+            sn = int(f.SegmentIdentificationSequence[0].ReferencedSegmentNumber)
+        div = f.FrameContentSequence[0].DimensionIndexValues
+        div = [int(div)] if isinstance(div, (int, np.integer)) else [int(x) for x in div]
+        out.append({'seg': sn, 'rc': [int(pp.RowPositionInTotalImagePixelMatrix), int(pp.ColumnPositionInTotalImagePixelMatrix)],
+                    'pos': [rstr(fr(pp.XOffsetInSlideCoordinateSystem)), rstr(fr(pp.YOffsetInSlideCoordinateSystem)),
+                            rstr(fr(pp.get('ZOffsetInSlideCoordinateSystem', 0.0)))], 'div': div})
+    return out
+
+
+def tile_frames_l1(ctx, descr, seg, mask, origin, ios, psx, reqs, pending):
+    """Tiles of a total-pixel-matrix mask: oracle on the stored per-frame items (pixels of the tile at the recorded offset,
+    DimensionIndexValues = ranks of row / column / x / y / z among the stored tiles, stored in ascending (segment, row,
+    column)) + L1 comparison with the model (`tileFrames`)."""
+    st, full = _fetch(stored_tile_frames, seg)
+    if st != 'ok':
+        ctx.fail(descr, f'stored tiles cannot be listed: {full}', site='tiled/frames')
+        return
+    total_r, total_c = descr['total']
+    tr, tc = int(seg.Rows), int(seg.Columns)
+    nseg, seg_type = descr['nseg'], descr['type']
+    m = np.zeros((total_r + tr, total_c + tc), np.int64)
+    m[:total_r, :total_c] = mask[0]
+    stp, px = _fetch(lambda: np.asarray(seg.pixel_array).reshape((-1, tr, tc)))
+    bad = []
+    if stp == 'ok' and px.shape[0] != len(full):
+        bad.append(f'{px.shape[0]} frames of pixels for {len(full)} per-frame items')
+        stp = 'err'
+    cols = [sorted({f['rc'][0] for f in full}), sorted({f['rc'][1] for f in full})] + [sorted({F(f['pos'][i]) for f in full}) for i in range(3)]
+    seen = set()
+    keys = []
+    for i, f in enumerate(full):
+        r0, c0 = f['rc'][0] - 1, f['rc'][1] - 1
+        if not (0 <= r0 < total_r and 0 <= c0 < total_c):
+            bad.append(f'frame {i}: tile offset {f["rc"]} outside the total pixel matrix')
+            continue
+        if (f['seg'], r0, c0) in seen:
+            bad.append(f'two frames for segment {f["seg"]} and tile offset {f["rc"]}')
+        seen.add((f['seg'], r0, c0))
+        tile = m[r0:r0 + tr, c0:c0 + tc]
+        lead = [] if seg_type == 'LABELMAP' else [f['seg']]
+        if (seg_type == 'LABELMAP') != (f['seg'] is None):
+            bad.append(f'frame {i}: segment {f["seg"]} in a {seg_type} segmentation')
+            continue
+        want_div = lead + [1 + cols[0].index(f['rc'][0]), 1 + cols[1].index(f['rc'][1])] + [1 + cols[2 + j].index(F(f['pos'][j])) for j in range(3)]
+        if f['div'] != want_div:
+            bad.append(f'frame {i} at tile offset {f["rc"]}: DimensionIndexValues {f["div"]}, {want_div} expected '
+                       '(segment, then 1-based ranks of row, column, x, y, z among the stored tiles)')
+        if stp == 'ok':
+            got = px[i].astype(np.int64) if seg_type == 'LABELMAP' else (px[i] != 0).astype(np.int64)
+            want = tile if seg_type == 'LABELMAP' else (tile == f['seg']).astype(np.int64)
+            if not np.array_equal(got, want):
+                bad.append(f'frame {i} is recorded at tile offset {f["rc"]} (segment {f["seg"]}) but carries other pixels')
+        keys.append((f['seg'] or 0, r0, c0))
+    if any(not (a < b) for a, b in zip(keys, keys[1:])):
+        bad.append(f'tiles are not stored in ascending (segment, row, column): {keys[:8]}')
+    for b in bad[:3]:
+        ctx.fail(descr, b, site='tiled/frames')
+    ctx.case(stream=descr['stream'] + '/frames', frames=min(len(full), 12), type=seg_type, omit=descr['omit'],
+             nontrivial_key=(descr['stream'], 'frames', len(full), seg_type, descr['omit'], nseg, tuple(descr['tile'])) if len(full) > 1 else None)
+    if descr['exact']:
+        grid = [(r0, c0) for r0 in range(0, total_r, tr) for c0 in range(0, total_c, tc)]
+        flags = [bool(m[r0:r0 + tr, c0:c0 + tc].any()) for r0, c0 in grid]
+        present = [[bool((m[r0:r0 + tr, c0:c0 + tc] == s_ + 1).any()) for r0, c0 in grid] for s_ in range(nseg)]
+        reqs.append(('tileFrames', {'ios': [rstr(x) for x in ios], 'ps': [rstr(x) for x in psx], 'origin': [rstr(x) for x in origin],
+                                    'rows': total_r, 'cols': total_c, 'tile_rows': tr, 'tile_cols': tc,
+                                    'described': list(range(1, nseg + 1)), 'present': present, 'flags': flags,
+                                    'omit': bool(descr['omit']), 'labelmap': seg_type == 'LABELMAP'}))
+        pending.append((dict(descr, what='stored tiles: segment, offset, slide position, DimensionIndexValues in stored order', layer='L1'),
+                        ('ok', full)))
+
+
 def model_store_req(g, n0, included, flags=None, omit=None):
     args = {'d': [[rstr(x) for x in _col(g['d'], j)] for j in range(3)], 's': [rstr(x) for x in g['s']],
             'p': [rstr(x) for x in g['p']], 'n0': n0, 'ks': list(included)}
@@ -864,7 +949,7 @@ def check_vol_case(ctx, descr, g, arr, mk, reqs, pending):
                 with_sbs=descr.get('with_sbs'), parallel_to_source=descr.get('parallel_to_source'),
                 exact=exact, layout=layout, n0=shape[0], memory=descr.get('memory'), type_spelling=descr.get('type_spelling'),
                 transfer_syntax=descr.get('transfer_syntax'), workers=str(descr.get('workers')),
-                square=shape[1] == shape[2])
+                square=shape[1] == shape[2], thin_slices=F(descr['spacing'][0]) < F(1, 4))
     if st != 'ok':
         ctx.case(outcome='construct-refused', **hkey)
         ctx.fail(descr, f'admissible volume refused by the constructor: {seg}', site='Segmentation.__init__')
@@ -1068,7 +1153,7 @@ def build_src_case(ctx, idx):
     n = r.choice([1, 2, 3, 3, 4, 5, 6, 8])
     rows, cols = r.randint(1, 5), r.randint(1, 5)
     ps = (r.choice(SPACINGS), r.choice(SPACINGS))
-    ss = r.choice(SPACINGS) * r.choice([1, 1, -1])
+    ss = slice_spacing(r) * r.choice([1, 1, -1])
     origin = [F(r.randint(-800, 800), 8) for _ in range(3)]
     order = list(range(n))
     omode = r.choice(['asc', 'desc', 'shuffled', 'shuffled'])
@@ -1139,7 +1224,8 @@ def check_src_case(ctx, descr, geo, arr, mk, src, reqs, pending):
     r = ctx.rng('srcreq', descr['idx'])
     hkey = dict(stream='src', type=seg_type, omit=descr['omit'], empties=descr['empties'], exact=exact, layout=layout,
                 n0=descr['n'], order=descr['order_mode'], source=descr['kind'], gaps=descr.get('gaps', False),
-                memory=descr.get('memory'), type_spelling=descr.get('type_spelling'), square=descr['rows'] == descr['cols'])
+                memory=descr.get('memory'), type_spelling=descr.get('type_spelling'), square=descr['rows'] == descr['cols'],
+                thin_slices=abs(F(descr['slice_spacing'])) < F(1, 4))
     st, seg = _fetch(mk)
     if st != 'ok':
         ctx.case(outcome='construct-refused', **hkey)
@@ -1285,7 +1371,7 @@ def build_img_case(ctx, idx):
     else:
         n = 1 if kind == 'single' else r.choice([1, 2, 3, 4, 5, 7])
         rows, cols = r.randint(1, 5), r.randint(1, 5)
-        ss = r.choice(SPACINGS) * r.choice([1, -1])
+        ss = slice_spacing(r) * r.choice([1, -1])
         order = list(range(n))
         r.shuffle(order)
         if kind == 'single':
@@ -1322,6 +1408,39 @@ def build_img_case(ctx, idx):
                     ds.SpacingBetweenSlices = float(hint)
                 else:
                     ds.SharedFunctionalGroupsSequence[0].PixelMeasuresSequence[0].SpacingBetweenSlices = float(hint)
+        # where the functional groups sit (guide 3a, per-item parameters): orientation and pixel measures shared, or repeated
+        # identically in every per-frame item, or both; or per frame with ONE frame that differs (no single geometry
+        # describes such an image: no volume may be returned)
+        groups, inconsistent = 'shared', None
+        if kind == 'multiframe':
+            import copy as _copy
+            rg = ctx.rng('imggroups', idx)
+            groups = rg.choice(['shared', 'shared', 'per-frame', 'orientation-per-frame', 'measures-per-frame', 'both'])
+            sh = ds.SharedFunctionalGroupsSequence[0]
+            if groups in ('per-frame', 'orientation-per-frame', 'both'):
+                for f in ds.PerFrameFunctionalGroupsSequence:
+                    f.PlaneOrientationSequence = _copy.deepcopy(sh.PlaneOrientationSequence)
+                if groups != 'both':
+                    del sh.PlaneOrientationSequence
+            if groups in ('per-frame', 'measures-per-frame', 'both'):
+                for f in ds.PerFrameFunctionalGroupsSequence:
+                    f.PixelMeasuresSequence = _copy.deepcopy(sh.PixelMeasuresSequence)
+                if groups != 'both':
+                    del sh.PixelMeasuresSequence
+            if groups in ('per-frame', 'orientation-per-frame', 'measures-per-frame') and n >= 2 and rg.random() < 0.3:
+                k = rg.randrange(n)             # also the first and the last frame
+                fk = ds.PerFrameFunctionalGroupsSequence[k]
+                if groups != 'orientation-per-frame' and (groups == 'measures-per-frame' or rg.random() < 0.5):
+                    inconsistent = 'pixel-spacing'
+                    pm_ = fk.PixelMeasuresSequence[0]
+                    pm_.PixelSpacing = [float(pm_.PixelSpacing[0]) * 2, float(pm_.PixelSpacing[1])]
+                else:
+                    inconsistent = 'orientation'
+                    po_ = fk.PlaneOrientationSequence[0]
+                    po_.ImageOrientationPatient = [-float(x) for x in po_.ImageOrientationPatient[:3]] + [
+                        float(x) for x in po_.ImageOrientationPatient[3:]]
+                descr['inconsistent_frame'] = k
+        descr.update(groups=groups, inconsistent=inconsistent)
         # two frames at one position: a geometry is still reported, get_volume must refuse (frames not distinguishable)
         dup = False
         if kind == 'multiframe' and n >= 2 and rs.random() < 0.12:
@@ -1349,7 +1468,8 @@ def check_img_case(ctx, descr, geo, shape, mk, reqs, pending):
     r = ctx.rng('imgreq', descr['idx'])
     st, im = _fetch(mk)
     hkey = dict(stream='img', source=descr['kind'], exact=exact, n0=shape[0], spacing_sign=descr.get('spacing_sign'),
-                duplicate_position=descr.get('duplicate_position', False))
+                duplicate_position=descr.get('duplicate_position', False), groups=descr.get('groups'),
+                inconsistent=descr.get('inconsistent'))
     if st != 'ok':
         ctx.case(outcome='open-refused', **hkey)
         ctx.note(f'img {descr["idx"]}: generator image not accepted by Image.from_dataset: {im}')
@@ -1360,6 +1480,14 @@ def check_img_case(ctx, descr, geo, shape, mk, reqs, pending):
              nontrivial_key=('img', descr['kind'], descr['dir'], shape, descr.get('tile'), descr.get('tiled_full'),
                              descr.get('spacing_sign')) if stv == 'ok' else None,
              outcome='ok' if stv == 'ok' else 'refused', **hkey)
+    if descr.get('inconsistent'):
+        # one frame with another orientation / pixel spacing: there is no geometry that places all frames
+        stg0, g0 = _fetch(im.get_volume_geometry)
+        if stv == 'ok' or (stg0 == 'ok' and g0 is not None):
+            ctx.fail(descr, {'what': f'frame {descr.get("inconsistent_frame")} has another {descr["inconsistent"]} than the other frames, yet '
+                                     + ('a volume is returned' if stv == 'ok' else 'a geometry is reported'),
+                             'affine': (v.affine if stv == 'ok' else g0.affine).tolist()}, site='Image.get_volume/inconsistent-frames')
+        return
     must_refuse = descr.get('spacing_sign') == 'zero' or descr.get('duplicate_position')
     if must_refuse:
         # the model must refuse too; what the image reports for itself must not contradict the refusal with a volume-less
@@ -1579,6 +1707,8 @@ def check_tiled_case(ctx, descr, geo, mask, mk, reqs, pending):
     pm = seg.SharedFunctionalGroupsSequence[0].PixelMeasuresSequence[0]
     psx = [fr(x) for x in pm.PixelSpacing]
     sbs = fr(pm.SpacingBetweenSlices) if 'SpacingBetweenSlices' in pm else None
+    if 'PerFrameFunctionalGroupsSequence' in seg:
+        tile_frames_l1(ctx, descr, seg, mask, origin, ios, psx, reqs, pending)
     if exact:
         if origin != list(planes[0][0]) or ios != rowcos + colcos or psx != list(ps):
             ctx.fail(descr, {'what': 'stored total-pixel-matrix origin / orientation / spacing differ from the input',
